@@ -152,8 +152,31 @@ def run(prog, chk, fs, rid="C08.c"):
                                 ok = "the inline dummy (&_capacity) of a non-owning buffer"
                         if ok:
                             V_((order, e, "t"), "ok", "terminator store at line %s" % n["l"], f.where(e), "inside " + ok)
+                        elif s2.facts.get("this->buffer") is None and s2.env.get("this->buffer") == V("buffer") and end is not None:
+                            # ownership not tested on this path: decide both cases.  Owned: the store hits [buffer, buffer + _capacity].
+                            # Attached (buffer == 0): it must stay inside the attached range [bufferStart@entry, bufferEnd@entry) -
+                            # the byte AT the entry end is the first one that does not belong to the buffer.
+                            fails = []
+                            so = s2.copy()
+                            so.facts["this->buffer"] = True
+                            self_m = m
+                            self_m.entry_fact(so, True)
+                            if not so.infeasible():
+                                B, cap = so.env.get("this->buffer"), so.env.get("this->_capacity")
+                                if not (so.proves(end - B) and so.proves(B + cap - end)):
+                                    fails.append("owning buffer: not shown to hit [buffer, buffer + _capacity]")
+                            sa = s2.copy()
+                            sa.facts["this->buffer"] = False
+                            self_m.entry_fact(sa, False)
+                            if not sa.infeasible():
+                                if not (end == Lin.var("&this->_capacity") or (sa.proves(end - V("bufferStart")) and sa.proves(V("bufferEnd") - Lin.const(1) - end))):
+                                    fails.append("attached buffer (buffer == 0): the store is not shown to stay below the end of the attached range")
+                            if fails:
+                                V_((order, e, "t"), "bad", "terminator-not-proved-in-bounds", f.where(e),
+                                   "the zero store through bufferEnd: " + "; ".join(fails))
+                            else:
+                                V_((order, e, "t"), "ok", "terminator store at line %s (owned and attached case)" % n["l"], f.where(e), "inside the owned block / the attached range")
                         elif s2.facts.get("this->buffer") is None:
-                            # ownership unknown here (e.g. removeBack on an attached buffer writes inside the attached range): decided only for owned
                             V_((order, e, "t"), "triv", "terminator store at line %s (ownership unknown)" % n["l"], f.where(e),
                                "not an owned-block obligation on this path")
                         else:
